@@ -294,6 +294,8 @@ class Harness(object):
                 self.flags.add('file>2^18')
             if dat is not None and len(dat) > (1 << 20):
                 self.flags.add('file>2^20')
+            if dat is not None and len(dat) > (1 << 24):
+                self.flags.add('file>2^24')
             m = BUNDLE_RE.match(base + '.bundle')
             try:
                 if self.version == 1:
@@ -759,7 +761,7 @@ def machine_shard(shard, nshards, seed, tier):
     if tier == 'quick':
         n, steps = 2400 // nshards, 30
     else:
-        n, steps = 32000 // nshards, 50
+        n, steps = 48000 // nshards, 50
     core.run_machine(make_machine(tier), st_, max_examples=n, seed=seed, step_count=steps)
     return st_
 
